@@ -109,6 +109,11 @@ func (g *Gen) unionTarget(sc *scope, depth int) ([]*Stmt, *varInfo) {
 		return nil, nil
 	}
 	u := us[g.intn(len(us), "matchUnion")]
+	for _, fu := range us {
+		if fu.carriesFunc() && g.chance(1, 2, "matchFnUnion") {
+			u = fu
+		}
+	}
 	ut := TUnion(u.Name)
 	name := g.fresh("u")
 	val := g.expr(sc, ut, depth-1)
@@ -151,6 +156,28 @@ func (g *Gen) matchUnion(sc *scope, t *Type, depth int) ([]*Stmt, *Expr) {
 			arm.Bind = name
 		}
 		arm.Body = g.armBlock(inner, t, depth-1)
+		if bv != nil && bv.t.K == "func" && bv.used == 0 && g.pure == 0 {
+			// a function payload the arm did not get round to: apply it once, as a statement
+			bv.used++
+			var args []*Expr
+			for _, pt := range bv.t.Params() {
+				args = append(args, g.expr(inner, pt, 0))
+			}
+			call := Call(bv.name, bv.t.Result(), args...)
+			var st *Expr
+			switch bv.t.Result().K {
+			case "string":
+				st = Call("frt.Println", TUnit, call)
+			case "int":
+				st = Call("frt.Printf1", TUnit, Str("%d\n"), call)
+			default:
+				st = Call("frt.Printf1", TUnit, Str("%v\n"), call)
+			}
+			arm.Body.Stmts = append([]*Stmt{ExprStmt(st)}, arm.Body.Stmts...)
+		}
+		if bv != nil && bv.t.K == "func" && bv.used > 0 {
+			g.label("function payload of a union case applied in its arm")
+		}
 		if bv != nil && bv.used == 0 {
 			// unused payload: `_` or no pattern at all
 			if g.chance(1, 2, "ignoreForm") {
